@@ -1,6 +1,6 @@
 SPECIFICATION Spec
 CONSTANTS NU = 2  NG = 1  NC = 0  MaxOps = 10  Spurious = TRUE
   Amts <- A2  Ops <- OpsAll  KickSets <- KS
-  ClearAtomic = TRUE  LogAtomic = TRUE  KickConsume = TRUE  OfflineOnVeto = TRUE  CloseOnLateVeto = TRUE  OnlineFloor = TRUE
+  ClearAtomic = TRUE  LogAtomic = TRUE  KickConsume = TRUE  OfflineOnVeto = TRUE  CloseOnLateVeto = TRUE  AuthAtomic = TRUE  OnlineFloor = TRUE
 INVARIANT PrintScn
 CHECK_DEADLOCK FALSE
